@@ -49,47 +49,63 @@ namespace Pe
 /-! ### `validate_headers` and the constructors -/
 
 -- src: pe.rs:772-852 validate_headers
+-- The four unchecked reads (`&*(p as *const IMAGE_DOS_HEADER)` pe.rs:781, `*(p as *const u32)` pe.rs:801,
+-- `*(p as *const u16)` pe.rs:802, `&*(p as *const IMAGE_NT_HEADERS)` pe.rs:817) go through `rawRef`
+-- with the size and alignment of the pointee (`IMAGE_DOS_HEADER`: 64 / 4, `IMAGE_NT_HEADERS`: 120 or 136 / 4,
+-- tied to the regenerated layout by `C01_validate_pointee_layout`); the fields are then read at the
+-- offsets of `Model/Pe.lean` (`le16 b 0` is `dos.e_magic`, …).
 def validateChk (f : Fmt) (img : Img) : Out Nat :=
   let b := img.bytes
   if 64 > b.size then .err .bounds                                    -- pe.rs:774
   else if img.base % 4 ≠ 0 then .err .misaligned                      -- pe.rs:778 aligned_to(4), a literal power of two
-  else if le16 b 0 ≠ 0x5A4D then .err .badMagic                       -- pe.rs:783
-  else if eLfanew b % 4 ≠ 0 then .err .misaligned                     -- pe.rs:787
-  else if eLfanew b > 0x01000000 then .err .insanity                  -- pe.rs:792
   else do
-    -- src: pe.rs:797 dos.e_lfanew as usize + (size_of::<IMAGE_NT_HEADERS>() - size_of::<IMAGE_OPTIONAL_HEADER>())
-    let magicOff ← padd64 "pe.rs:797 e_lfanew as usize + (size_of NT - size_of OPT)" (eLfanew b) (f.ntSize - f.optSize)
-    -- src: pe.rs:798 magic_offset + mem::size_of::<u16>()
-    let magicEnd ← padd64 "pe.rs:798 magic_offset + size_of::<u16>()" magicOff 2
-    if magicEnd > b.size then .err .bounds
-    else if le32 b (eLfanew b) ≠ 0x00004550 ∨ ¬ (le16 b magicOff = 0x10b ∨ le16 b magicOff = 0x20b) then .err .badMagic
-    else if le16 b magicOff ≠ f.magic then .err .peMagic              -- pe.rs:808
+    -- src: pe.rs:781 &*(image.as_ptr() as *const IMAGE_DOS_HEADER)
+    let _dos ← rawRef "pe.rs:781 &*(image.as_ptr() as *const IMAGE_DOS_HEADER)" img 0 64 4
+    if le16 b 0 ≠ 0x5A4D then .err .badMagic                          -- pe.rs:783
+    else if eLfanew b % 4 ≠ 0 then .err .misaligned                   -- pe.rs:787
+    else if eLfanew b > 0x01000000 then .err .insanity                -- pe.rs:792
     else do
-      -- src: pe.rs:813 dos.e_lfanew as usize + mem::size_of::<IMAGE_NT_HEADERS>()
-      let ntEnd ← padd64 "pe.rs:813 e_lfanew as usize + size_of NT" (eLfanew b) f.ntSize
-      if ntEnd > b.size then .err .bounds
-      else if sizeOfHeaders b > b.size then .err .bounds              -- pe.rs:818
-      else if sizeOfHeaders b > sizeOfImage b then .err .insanity     -- pe.rs:821
+      -- src: pe.rs:797 dos.e_lfanew as usize + (size_of::<IMAGE_NT_HEADERS>() - size_of::<IMAGE_OPTIONAL_HEADER>())
+      let magicOff ← padd64 "pe.rs:797 e_lfanew as usize + (size_of NT - size_of OPT)" (eLfanew b) (f.ntSize - f.optSize)
+      -- src: pe.rs:798 magic_offset + mem::size_of::<u16>()
+      let magicEnd ← padd64 "pe.rs:798 magic_offset + size_of::<u16>()" magicOff 2
+      if magicEnd > b.size then .err .bounds
       else do
-        let nrs := min (numberOfRvaAndSizes f b) 16                   -- pe.rs:826
-        -- src: pe.rs:827 num_rva_sizes * mem::size_of::<IMAGE_DATA_DIRECTORY>()
-        let sdd ← pmulUsize "pe.rs:827 num_rva_sizes * size_of DD" nrs 8
-        -- src: pe.rs:828 nt_end + size_of_data_dir
-        let ddEnd ← padd64 "pe.rs:828 nt_end + size_of_data_dir" ntEnd sdd
-        if ddEnd > b.size then .err .bounds
-        else if numberOfSections b > 96 then .err .insanity           -- pe.rs:833
+        -- src: pe.rs:801 *(image.as_ptr().offset(dos.e_lfanew as isize) as *const u32)
+        let _sig ← rawRef "pe.rs:801 *(image.as_ptr().offset(e_lfanew) as *const u32)" img (eLfanew b) 4 4
+        -- src: pe.rs:802 *(image.as_ptr().add(magic_offset) as *const u16)
+        let _mag ← rawRef "pe.rs:802 *(image.as_ptr().add(magic_offset) as *const u16)" img magicOff 2 2
+        if le32 b (eLfanew b) ≠ 0x00004550 ∨ ¬ (le16 b magicOff = 0x10b ∨ le16 b magicOff = 0x20b) then .err .badMagic
+        else if le16 b magicOff ≠ f.magic then .err .peMagic            -- pe.rs:808
         else do
-          -- src: pe.rs:837 nt.FileHeader.NumberOfSections as usize * mem::size_of::<IMAGE_SECTION_HEADER>()
-          let sos ← pmulUsize "pe.rs:837 NumberOfSections as usize * size_of SH" (numberOfSections b) 40
-          -- src: pe.rs:840-841 dos.e_lfanew as usize + (size_of NT - size_of OPT)
-          let t ← padd64 "pe.rs:841 e_lfanew as usize + (size_of NT - size_of OPT)" (eLfanew b) (f.ntSize - f.optSize)
-          -- src: pe.rs:842 + nt.FileHeader.SizeOfOptionalHeader as usize
-          let start ← padd64 "pe.rs:842 + SizeOfOptionalHeader as usize" t (sizeOfOptionalHeader b)
-          -- src: pe.rs:844 size_of_sections + start_of_sections
-          let secEnd ← padd64 "pe.rs:844 size_of_sections + start_of_sections" sos start
-          if secEnd > b.size then .err .bounds
-          else if start % 4 ≠ 0 then .err .misaligned                  -- pe.rs:848 aligned_to(align_of SH = 4)
-          else .ok (sizeOfImage b)
+          -- src: pe.rs:813 dos.e_lfanew as usize + mem::size_of::<IMAGE_NT_HEADERS>()
+          let ntEnd ← padd64 "pe.rs:813 e_lfanew as usize + size_of NT" (eLfanew b) f.ntSize
+          if ntEnd > b.size then .err .bounds
+          else do
+            -- src: pe.rs:817 &*(image.as_ptr().offset(dos.e_lfanew as isize) as *const IMAGE_NT_HEADERS)
+            let _nt ← rawRef "pe.rs:817 &*(image.as_ptr().offset(e_lfanew) as *const IMAGE_NT_HEADERS)" img (eLfanew b) f.ntSize 4
+            if sizeOfHeaders b > b.size then .err .bounds              -- pe.rs:818
+            else if sizeOfHeaders b > sizeOfImage b then .err .insanity     -- pe.rs:821
+            else do
+              let nrs := min (numberOfRvaAndSizes f b) 16                   -- pe.rs:826
+              -- src: pe.rs:827 num_rva_sizes * mem::size_of::<IMAGE_DATA_DIRECTORY>()
+              let sdd ← pmulUsize "pe.rs:827 num_rva_sizes * size_of DD" nrs 8
+              -- src: pe.rs:828 nt_end + size_of_data_dir
+              let ddEnd ← padd64 "pe.rs:828 nt_end + size_of_data_dir" ntEnd sdd
+              if ddEnd > b.size then .err .bounds
+              else if numberOfSections b > 96 then .err .insanity           -- pe.rs:833
+              else do
+                -- src: pe.rs:837 nt.FileHeader.NumberOfSections as usize * mem::size_of::<IMAGE_SECTION_HEADER>()
+                let sos ← pmulUsize "pe.rs:837 NumberOfSections as usize * size_of SH" (numberOfSections b) 40
+                -- src: pe.rs:840-841 dos.e_lfanew as usize + (size_of NT - size_of OPT)
+                let t ← padd64 "pe.rs:841 e_lfanew as usize + (size_of NT - size_of OPT)" (eLfanew b) (f.ntSize - f.optSize)
+                -- src: pe.rs:842 + nt.FileHeader.SizeOfOptionalHeader as usize
+                let start ← padd64 "pe.rs:842 + SizeOfOptionalHeader as usize" t (sizeOfOptionalHeader b)
+                -- src: pe.rs:844 size_of_sections + start_of_sections
+                let secEnd ← padd64 "pe.rs:844 size_of_sections + start_of_sections" sos start
+                if secEnd > b.size then .err .bounds
+                else if start % 4 ≠ 0 then .err .misaligned                  -- pe.rs:848 aligned_to(align_of SH = 4)
+                else .ok (sizeOfImage b)
 
 -- src: file.rs:39-43 PeFile::from_bytes, view.rs:58-63 PeView::from_bytes
 def fromBytesChk (f : Fmt) (k : Kind) (img : Img) : Out View :=
@@ -326,6 +342,9 @@ def View.checkSumChk (v : View) : Out Nat := do
   let p2 ← padd64 "headers.rs:38 + offset_of!(CheckSum)" p1 64
   let pos := p2 / 4
   let n := len / 4                                                     -- headers.rs:39 image.len() / 4
+  -- src: headers.rs:39 slice::from_raw_parts(image.as_ptr() as *const u32, image.len() / 4)
+  -- (the same access: pe.rs:479 `Pe::rich_structure`)
+  let _dwords ← rawRef "headers.rs:39 slice::from_raw_parts(image.as_ptr() as *const u32, image.len() / 4)" v.img 0 (4 * n) 4
   let c ← csumLoopChk v.b pos n n 0
   -- src: headers.rs:52 &image[dwords.len() * 4..]
   let tstart ← pmulUsize "headers.rs:52 dwords.len() * 4" n 4
@@ -345,6 +364,29 @@ def View.checkSumChk (v : View) : Out Nat := do
   -- src: headers.rs:65 check_sum += image.len() as u64
   let c ← padd64 "headers.rs:65 check_sum += image.len() as u64" c len
   .ok (c % 4294967296)                                                 -- headers.rs:67 `as u32`
+
+/-! ### `SectionHeaders::by_name` -/
+
+-- src: wrap/sections.rs:103-105 `for i in 0..name.len() { name_buf[i] = name[i]; }`
+-- (`i = name.len() - (fuel+1)` is the loop counter; `buf` is `name_buf: [u8; 8]`)
+def nameBufLoopChk (n : Bytes) : Nat → Bytes → Out Bytes
+  | 0, buf => .ok buf
+  | fuel+1, buf => do
+    let i := n.size - (fuel + 1)
+    -- src: sections.rs:104 name[i]            (the right-hand side is evaluated first)
+    pIndex "sections.rs:104 name[i]" n.size i
+    -- src: sections.rs:104 name_buf[i] = ..
+    pIndex "sections.rs:104 name_buf[i]" buf.size i
+    nameBufLoopChk n fuel (buf.setIfInBounds i (n.getD i 0))
+
+-- src: wrap/sections.rs:95-112 SectionHeaders::by_name
+def byNameBytesChk (secs : List Sec) (n : Bytes) : Out (Option Nat) :=
+  if n.size > 8 then .ok none                                          -- sections.rs:98-100 return None
+  else do
+    -- src: sections.rs:102 let mut name_buf = [0u8; IMAGE_SIZEOF_SHORT_NAME]
+    let buf ← nameBufLoopChk n n.size (Array.replicate 8 0)
+    -- src: sections.rs:106-111 `sect.0.Name == name_buf` (array comparison, no index), first match
+    .ok (byName secs (le32 buf 0) (le32 buf 4))
 
 /-! ### typed reads -/
 
@@ -422,6 +464,36 @@ def View.dervaSliceFChk (v : View) (a : Addr) (size align : Nat) (stop : Nat →
 -- src: pe.rs:373-375 derva_slice_s / 461-463 deref_slice_s
 def View.dervaSliceSChk (v : View) (a : Addr) (size align sentinel : Nat) : Out Ref :=
   v.dervaSliceFChk a size align (fun x => x == sentinel)
+
+-- src: pe.rs:350-366 / 438-454 the loop of derva_slice_f / deref_slice_f for a STATEFUL callable
+-- (`F: FnMut`): `stop len x` is the answer of the call made on element `len` (see `sliceFLoopI`)
+def sliceFLoopIChk (img : Img) (off blen size align : Nat) (stop : Nat → Nat → Bool) (fuel : Nat) (len : Nat) : Out Nat :=
+  match fuel with
+  | 0 => .diverge
+  | fuel+1 => do
+    -- src: pe.rs:353 / 441 len * mem::size_of::<T>()
+    let offset ← pmulUsize "pe.rs:353 len * size_of::<T>()" len size
+    -- src: pe.rs:354 / 442 offset + mem::size_of::<T>() > bytes.len()
+    let e ← padd64 "pe.rs:354 offset + size_of::<T>()" offset size
+    if e > blen then .err .bounds
+    else do
+      -- src: pe.rs:359-360 / 447-448 f(&*(bytes.as_ptr().offset(offset as isize) as *const T))
+      let s ← rawRef "pe.rs:360 &*(bytes.as_ptr().offset(offset) as *const T)" img (off + offset) size align
+      if stop len (leN img.bytes s.off size) then .ok len
+      else do
+        -- src: pe.rs:364 / 452 len += 1
+        let len' ← padd64 "pe.rs:364 len += 1" len 1
+        sliceFLoopIChk img off blen size align stop fuel len'
+
+-- src: pe.rs:346-367 derva_slice_f / 434-455 deref_slice_f, stateful callable
+def View.dervaSliceFIChk (v : View) (a : Addr) (size align : Nat) (stop : Nat → Nat → Bool) : Out Ref :=
+  match v.atChk a 0 align with
+  | .ok r =>
+    (match sliceFLoopIChk v.img r.off r.len size align stop (r.len + 2) 0 with
+     -- src: pe.rs:361 / 449 slice::from_raw_parts(bytes.as_ptr() as *const T, len)
+     | .ok n => rawRef "pe.rs:361 slice::from_raw_parts(bytes.as_ptr() as *const T, len)" v.img r.off (n * size) align
+     | .err e => .err e | .panic s => .panic s | .ub s => .ub s | .diverge => .diverge)
+  | .err e => .err e | .panic s => .panic s | .ub s => .ub s | .diverge => .diverge
 
 -- src: c_str.rs:39-42 CStr::from_bytes over the window `[off, off+len)`
 def cstrFromBytesChk (img : Img) (off len : Nat) : Out (Option Ref) :=
